@@ -5,8 +5,7 @@
    property therefore splits into what holds (…_partial, …_detected, …_no_panic) and what the
    current code violates (…_refuted, witnesses replayed on the Go code by harness/c09).
    The refutations are proved for EVERY hash function (GenericRefute.v, from the round-trip
-   theorem); instances evaluated with the executable SHA-256 (one flipped bit of a real record, a
-   1 GiB allocation) are in Corrupt/Witness.v, which this file imports so that they are re-checked
+   theorem); instances evaluated with the executable SHA-256 (one flipped bit of a real record) are in Corrupt/Witness.v, which this file imports so that they are re-checked
    on every run; they are not restated here because Print Assumptions lists Coq's primitive
    63-bit integers, used by that SHA-256, as axioms. *)
 From V Require Import Corrupt.TxRecord Corrupt.HTreeBind Corrupt.Binding Corrupt.ReaderSound
@@ -118,18 +117,18 @@ Print Assumptions C09_corrupt_tx_vlen_refuted.
 (* Values: read with the committed (length, digest) pair from ANY bytes at ANY offset of any value
    log: an error, or exactly the committed value, or a collision. *)
 Theorem C09_corrupt_value_detected :
-  forall (H : bytes -> bytes) (v : bytes) (mode : vmode) (txlog : bytes) (vlogs : list bytes)
+  forall (H : bytes -> bytes) (v : bytes) (mvl : N) (mode : vmode) (txlog : bytes) (vlogs : list bytes)
          (off : N) (v' : bytes),
-  read_value H mode txlog vlogs (len v) off (H v) = Ok v' -> v' = v \/ Collision H.
+  read_value H mvl mode txlog vlogs (len v) off (H v) = Ok v' -> v' = v \/ Collision H.
 Proof. exact corrupt_value_detected. Qed.
 Print Assumptions C09_corrupt_value_detected.
 
 (* Values through an altered record (vLen', vOff' arbitrary, digest committed): an error, or the
    committed value, or the EMPTY value when vLen' = 0, or a collision. *)
 Theorem C09_corrupt_entry_value_partial :
-  forall (H : bytes -> bytes) (v : bytes) (mode : vmode) (txlog : bytes) (vlogs : list bytes)
+  forall (H : bytes -> bytes) (v : bytes) (mvl : N) (mode : vmode) (txlog : bytes) (vlogs : list bytes)
          (vlen' off' : N) (v' : bytes),
-  read_value H mode txlog vlogs vlen' off' (H v) = Ok v' ->
+  read_value H mvl mode txlog vlogs vlen' off' (H v) = Ok v' ->
   v' = v \/ (vlen' = 0 /\ v' = []) \/ Collision H.
 Proof. exact corrupt_entry_value_partial. Qed.
 Print Assumptions C09_corrupt_entry_value_partial.
@@ -140,18 +139,18 @@ Print Assumptions C09_corrupt_entry_value_partial.
    (Full chain on a concrete record — one flipped bit, ReadTx ok, ReadValue = empty — in
    Corrupt/Witness.v: corrupt_entry_value_refuted.) *)
 Theorem C09_corrupt_entry_value_refuted :
-  forall (H : bytes -> bytes) (v : bytes) (mode : vmode) (txlog : bytes) (vlogs : list bytes) (off : N),
-  v <> [] -> exists v', read_value H mode txlog vlogs 0 off (H v) = Ok v' /\ v' <> v.
+  forall (H : bytes -> bytes) (v : bytes) (mvl : N) (mode : vmode) (txlog : bytes) (vlogs : list bytes) (off : N),
+  v <> [] -> exists v', read_value H mvl mode txlog vlogs 0 off (H v) = Ok v' /\ v' <> v.
 Proof. exact corrupt_entry_value_refuted_any_hash. Qed.
 Print Assumptions C09_corrupt_entry_value_refuted.
 
 (* ExportTx: when values are exported (flag "truncated" off) they are the committed ones, whatever
    vLen/vOff the record carried, or a collision. *)
 Theorem C09_export_values_sound :
-  forall (H : bytes -> bytes) (mode : vmode) (txlog : bytes) (vlogs : list bytes)
+  forall (H : bytes -> bytes) (mvl : N) (mode : vmode) (txlog : bytes) (vlogs : list bytes)
          (es : list entry) (vs : list bytes) (i : N) (l : list bytes),
   map e_hval es = map H vs ->
-  export_values H true mode txlog vlogs es i false = Ok (false, l) -> l = vs \/ Collision H.
+  export_values H true mvl mode txlog vlogs es i false = Ok (false, l) -> l = vs \/ Collision H.
 Proof. exact export_values_sound. Qed.
 Print Assumptions C09_export_values_sound.
 
@@ -160,7 +159,7 @@ Print Assumptions C09_export_values_sound.
    by retention": the export succeeds with the digest in place of the value, no error. *)
 Theorem C09_export_values_refuted :
   forall (H : bytes -> bytes) (hval : bytes),
-  export_values H true VSingle [] [w_vlog] [w_entry [107; 49] 2 (w_voff + 100) hval] 0 false
+  export_values H true 64 VSingle [] [w_vlog] [w_entry [107; 49] 2 (w_voff + 100) hval] 0 false
     = Ok (true, [hval]).
 Proof. exact export_eof_as_truncated. Qed.
 Print Assumptions C09_export_values_refuted.
@@ -172,20 +171,28 @@ Theorem C09_read_tx_no_panic :
 Proof. exact read_tx_no_panic. Qed.
 Print Assumptions C09_read_tx_no_panic.
 
-(* Never crashes, values: no panic when the value reference names a value log the store has
-   (embedded values: always; one value log: always) ... *)
-Theorem C09_read_value_no_panic_partial :
-  forall (H : bytes -> bytes) (mode : vmode) (txlog : bytes) (vlogs : list bytes) (vlen off : N)
-         (hval : bytes),
-  vlog_known mode vlogs vlen off -> read_value H mode txlog vlogs vlen off hval <> Panic.
-Proof. exact read_value_no_panic_partial. Qed.
-Print Assumptions C09_read_value_no_panic_partial.
+(* Never crashes, values (the code as fixed by c6a3ff8): for EVERY value reference — any vLen, any
+   vOff including value-log ids the store does not have — any log contents and any MaxValueLen,
+   ReadValue returns a value or an error. The only premise is about the store, not about the
+   data: with MaxIOConcurrency = 1 and no embedded values its one value log exists. *)
+Theorem C09_read_value_no_panic :
+  forall (H : bytes -> bytes) (mvl : N) (mode : vmode) (txlog : bytes) (vlogs : list bytes)
+         (vlen off : N) (hval : bytes),
+  vlogs_present mode vlogs -> read_value H mvl mode txlog vlogs vlen off hval <> Panic.
+Proof. exact read_value_no_panic. Qed.
+Print Assumptions C09_read_value_no_panic.
 
-(* ... and a PANIC otherwise: with several value logs, a vOff whose top byte names a log the store
-   does not have (one flipped bit: 1 -> 5) dereferences a missing map entry. *)
-Theorem C09_read_value_no_panic_refuted :
-  forall H : bytes -> bytes,
-  read_value H VMulti [] [w_vlog; []] 2 (5 * 2 ^ 56 + 3) (H w_val) = Panic.
-Proof. exact read_value_no_panic_refuted. Qed.
-Print Assumptions C09_read_value_no_panic_refuted.
+(* ... and so does the value loop of ExportTx. *)
+Theorem C09_export_values_no_panic :
+  forall (H : bytes -> bytes) (chk : bool) (mvl : N) (mode : vmode) (txlog : bytes) (vlogs : list bytes),
+  vlogs_present mode vlogs -> forall (es : list entry) (i : N) (trunc : bool),
+  export_values H chk mvl mode txlog vlogs es i trunc <> Panic.
+Proof. exact export_values_no_panic. Qed.
+Print Assumptions C09_export_values_no_panic.
 
+(* The buffer allocated for a value read never exceeds MaxValueLen, whatever vLen the (possibly
+   altered) record carries (the code as fixed by 85f50b0). *)
+Theorem C09_read_value_alloc_bounded :
+  forall mvl vlen : N, read_value_alloc mvl vlen <= mvl.
+Proof. exact read_value_alloc_bounded. Qed.
+Print Assumptions C09_read_value_alloc_bounded.
